@@ -443,8 +443,21 @@ def rh_history(ctx):
 
 # ---- structural ----------------------------------------------------------------------------------------------
 
-def _self_attrs(node):
-    return {n.attr for n in ast.walk(node) if isinstance(n, ast.Attribute) and dotted(n.value) == "self"}
+def _self_attrs(node, repo=None, cls=None, depth=3, seen=None):
+    """attributes of self read in a method body; calls to other methods / properties of the same class are followed (a
+    __hash__ or __eq__ written through a helper such as self._key() reads what the helper reads)"""
+    out = {n.attr for n in ast.walk(node) if isinstance(n, ast.Attribute) and dotted(n.value) == "self"}
+    if repo is None or cls is None or depth <= 0:
+        return out
+    seen = seen or set()
+    for a in list(out):
+        if a in seen:
+            continue
+        m = repo.lookup_method(cls, a)
+        if m is not None:
+            seen.add(a)
+            out |= _self_attrs(m.node, repo, cls, depth - 1, seen)
+    return out
 
 
 def r5_cache_keys(ctx):
@@ -455,7 +468,7 @@ def r5_cache_keys(ctx):
     init, hsh = par.methods["__init__"], par.methods["__hash__"]
     assigned = {n.attr for n in ast.walk(init.node) if isinstance(n, ast.Attribute) and isinstance(n.ctx, ast.Store) and dotted(n.value) == "self"}
     assigned -= MEMO_FIELDS
-    hashed = _self_attrs(hsh.node)
+    hashed = _self_attrs(hsh.node, repo, par)
     alias = {"_strand": "strand"}  # the strand property reads _strand / location.strand
     for fld in sorted(assigned):
         r.check(fld in hashed or alias.get(fld) in hashed, "C10.R5", hsh.qual, f"field {fld} takes part in the hash",
@@ -465,13 +478,24 @@ def r5_cache_keys(ctx):
         c = repo.cls(q)
         eq, hs = c.methods["__eq__"], c.methods["__hash__"]
         compared = {a for a in _self_attrs(eq.node)}
-        hashed = _self_attrs(hs.node)
+        hashed = _self_attrs(hs.node, repo, c)
         # blocks/num_blocks of CompoundInterval are derived from _starts/_ends
         derived = {"blocks": {"_starts", "_ends"}, "num_blocks": {"_starts"}}
         for fld in sorted(compared):
             ok = fld in hashed or (fld in derived and derived[fld] <= hashed)
             r.check(ok, "C10.R5", hs.qual, f"compared field {fld} is hashed",
                     f"{c.name}.__eq__ compares self.{fld} but __hash__ ignores it (memo keys containing such objects collide)", hs)
+
+
+def _is_fast_path(fnode, cmp):
+    ops = {src(cmp.left)} | {src(c) for c in cmp.comparators}
+    for n in ast.walk(fnode):
+        if isinstance(n, ast.BoolOp) and isinstance(n.op, ast.Or) and cmp in n.values:
+            for v in n.values:
+                if isinstance(v, ast.Compare) and any(isinstance(o, ast.Eq) for o in v.ops) and \
+                        ({src(v.left)} | {src(c) for c in v.comparators}) == ops:
+                    return True
+    return False
 
 
 def r6_identity(ctx):
@@ -492,6 +516,8 @@ def r6_identity(ctx):
                 if any(t in ("other", "self") for t in texts) and fn.name == "__eq__":
                     continue
                 last = [t.split(".")[-1] for t in texts]
+                if _is_fast_path(fn.node, node):
+                    continue  # `a is b or a == b`: identity only short-cuts an equality on the same operands
                 if any(x in suspects for x in last):
                     n += 1
                     r.violation("C10.R6", fn.qual, f"identity comparison `{src(node)}`",
